@@ -236,6 +236,8 @@ class Case:
 
 def _worker(modname, case_index, tier, seed, conn):
     try:
+        import gc
+        gc.freeze()     # forked child: keep the cyclic GC off the (large) inherited heap - avoids copy-on-write of every page at each full collection (4x faster cases)
         mod = importlib.import_module(modname)
         cases = mod.cases(tier, seed)
         c = cases[case_index]
